@@ -849,6 +849,58 @@ fn should_do_dollar_command_extension(line: &str) -> bool {
     !libs::re::re_contains(line, r"='.*\$\([^\)]+\).*'$")
 }
 
+/// Run `cmd` with its output captured; returns what has to be spliced in:
+/// the standard output without its trailing newlines. The diagnostics of
+/// the inner command are passed on to the shell's standard error.
+fn run_command_substitution(sh: &mut Shell, cmd: &str) -> String {
+    let cmd_result = match CommandLine::from_line(cmd, sh) {
+        Ok(c) => {
+            log!("run subcmd: {:?}", &cmd);
+            let (term_given, cr) = core::run_pipeline(sh, &c, true, true, false);
+            if term_given {
+                unsafe {
+                    let gid = libc::getpgid(0);
+                    give_terminal_to(gid);
+                }
+            }
+
+            cr
+        }
+        Err(e) => {
+            // the substitution is replaced by nothing
+            println_stderr!("cicada: {}", e);
+            types::CommandResult::error()
+        }
+    };
+
+    if !cmd_result.stderr.is_empty() {
+        let mut err = std::io::stderr();
+        let _ = err.write_all(cmd_result.stderr.as_bytes());
+        if !cmd_result.stderr.ends_with('\n') {
+            let _ = err.write_all(b"\n");
+        }
+    }
+    cmd_result.stdout.trim_end_matches(|c| c == '\n' || c == '\r').to_string()
+}
+
+/// Find the first `$(...)` in `text`: returns (start of `$(`, end index
+/// just after the matching `)`), honouring nested parentheses.
+fn find_dollar_substitution(text: &str) -> Option<(usize, usize)> {
+    let start = text.find("$(")?;
+    let mut depth = 0;
+    for (i, c) in text[start + 1..].char_indices() {
+        if c == '(' {
+            depth += 1;
+        } else if c == ')' {
+            depth -= 1;
+            if depth == 0 {
+                return Some((start, start + 1 + i + 1));
+            }
+        }
+    }
+    None
+}
+
 fn do_command_substitution_for_dollar(sh: &mut Shell, tokens: &mut types::Tokens) {
     let mut idx: usize = 0;
     let mut buff: HashMap<usize, String> = HashMap::new();
@@ -859,57 +911,22 @@ fn do_command_substitution_for_dollar(sh: &mut Shell, tokens: &mut types::Tokens
             continue;
         }
 
-        let mut line = token.to_string();
-        loop {
-            if !should_do_dollar_command_extension(&line) {
-                break;
-            }
-
-            let ptn_cmd = r"\$\((.+)\)";
-            let cmd = match libs::re::find_first_group(ptn_cmd, &line) {
-                Some(x) => x,
-                None => {
-                    println_stderr!("cicada: calculator: no first group");
-                    return;
-                }
-            };
-
-            let cmd_result = match CommandLine::from_line(&cmd, sh) {
-                Ok(c) => {
-                    log!("run subcmd dollar: {:?}", &cmd);
-                    let (term_given, cr) = core::run_pipeline(sh, &c, true, true, false);
-                    if term_given {
-                        unsafe {
-                            let gid = libc::getpgid(0);
-                            give_terminal_to(gid);
-                        }
-                    }
-
-                    cr
-                }
-                Err(e) => {
-                    // the substitution is replaced by nothing below; a
-                    // `continue` here would retry the same text forever.
-                    println_stderr!("cicada: {}", e);
-                    types::CommandResult::error()
-                }
-            };
-
-            let output_txt = cmd_result.stdout.trim();
-
-            let ptn = r"(?P<head>[^\$]*)\$\(.+\)(?P<tail>.*)";
-            let re;
-            if let Ok(x) = Regex::new(ptn) {
-                re = x;
+        // left to right: every `$(...)` is run once and its output is put
+        // in literally; text that has been produced is not looked at again.
+        let mut line = String::new();
+        let mut rest = token.to_string();
+        while let Some((start, end)) = find_dollar_substitution(&rest) {
+            let cmd = rest[start + 2..end - 1].to_string();
+            if cmd.trim().is_empty() {
+                line.push_str(&rest[..end]);
             } else {
-                return;
+                let output = run_command_substitution(sh, &cmd);
+                line.push_str(&rest[..start]);
+                line.push_str(&output);
             }
-
-            let to = format!("${{head}}{}${{tail}}", output_txt);
-            let line_ = line.clone();
-            let result = re.replace(&line_, to.as_str());
-            line = result.to_string();
+            rest = rest[end..].to_string();
         }
+        line.push_str(&rest);
 
         buff.insert(idx, line.clone());
         idx += 1;
@@ -926,29 +943,10 @@ fn do_command_substitution_for_dot(sh: &mut Shell, tokens: &mut types::Tokens) {
     for (sep, token) in tokens.iter() {
         let new_token: String;
         if sep == "`" {
-            log!("run subcmd dot1: {:?}", token);
-            let cr = match CommandLine::from_line(token, sh) {
-                Ok(c) => {
-                    let (term_given, _cr) = core::run_pipeline(sh, &c, true, true, false);
-                    if term_given {
-                        unsafe {
-                            let gid = libc::getpgid(0);
-                            give_terminal_to(gid);
-                        }
-                    }
-
-                    _cr
-                }
-                Err(e) => {
-                    println_stderr!("cicada: {}", e);
-                    types::CommandResult::error()
-                }
-            };
-
-            new_token = cr.stdout.trim().to_string();
+            new_token = run_command_substitution(sh, token);
         } else if sep == "\"" || sep.is_empty() {
             let re;
-            if let Ok(x) = Regex::new(r"^([^`]*)`([^`]+)`(.*)$") {
+            if let Ok(x) = Regex::new(r"(?s)^([^`]*)`([^`]+)`(.*)$") {
                 re = x;
             } else {
                 println_stderr!("cicada: re new error");
@@ -958,49 +956,19 @@ fn do_command_substitution_for_dot(sh: &mut Shell, tokens: &mut types::Tokens) {
                 idx += 1;
                 continue;
             }
-            let mut _token = token.clone();
+            // left to right; produced text is not looked at again
+            let mut _rest = token.clone();
             let mut _item = String::new();
-            let mut _head = String::new();
-            let mut _output = String::new();
-            let mut _tail = String::new();
-            loop {
-                if !re.is_match(&_token) {
-                    if !_token.is_empty() {
-                        _item = format!("{}{}", _item, _token);
-                    }
-                    break;
-                }
-                for cap in re.captures_iter(&_token) {
-                    _head = cap[1].to_string();
-                    _tail = cap[3].to_string();
-                    log!("run subcmd dot2: {:?}", &cap[2]);
-
-                    let cr = match CommandLine::from_line(&cap[2], sh) {
-                        Ok(c) => {
-                            let (term_given, _cr) = core::run_pipeline(sh, &c, true, true, false);
-                            if term_given {
-                                unsafe {
-                                    let gid = libc::getpgid(0);
-                                    give_terminal_to(gid);
-                                }
-                            }
-
-                            _cr
-                        }
-                        Err(e) => {
-                            println_stderr!("cicada: {}", e);
-                            types::CommandResult::error()
-                        }
-                    };
-
-                    _output = cr.stdout.trim().to_string();
-                }
-                _item = format!("{}{}{}", _item, _head, _output);
-                if _tail.is_empty() {
-                    break;
-                }
-                _token = _tail.clone();
+            while let Some(cap) = re.captures(&_rest) {
+                let _head = cap[1].to_string();
+                let _cmd = cap[2].to_string();
+                let _tail = cap[3].to_string();
+                let _output = run_command_substitution(sh, &_cmd);
+                _item.push_str(&_head);
+                _item.push_str(&_output);
+                _rest = _tail;
             }
+            _item.push_str(&_rest);
             new_token = _item;
         } else {
             idx += 1;
